@@ -564,3 +564,14 @@ func DirectiveRich(id int) *Model {
 			Comments: []string{"gomacro:SQL ADD UNIQUE(Item, Depot)", "gomacro:SQL ADD UNIQUE(Item, Owner)", "gomacro:SQL ADD UNIQUE(Depot, Owner, N)"}},
 	}}
 }
+
+// TwinColumns: two tables with a jsonb column of the same name and type, two with an enum-like CHECK of the same
+// column name: per-column declarations must be told apart by their table.
+func TwinColumns(id int) *Model {
+	opts := TE{K: "map", Elem: &TE{K: "basic", Name: "bool"}}
+	mk := func(name string) Table {
+		return Table{Goname: name, Fields: []Field{plain("Id", basic("int64")), plain("Settings", opts), plain("Tags", TE{K: "slice", Elem: &TE{K: "basic", Name: "string"}}), plain("Rank", basic("int"))},
+			Comments: []string{"gomacro:SQL ADD CHECK(Rank > 0)", "gomacro:SQL ADD UNIQUE(Rank)"}}
+	}
+	return &Model{ID: id, Tables: []Table{mk("Account"), mk("Device"), mk("Gadget")}}
+}
